@@ -8,7 +8,12 @@ import json, os, subprocess, sys, time, re, shutil, hashlib, concurrent.futures 
 
 ROOT = '/verif'
 WORK = os.path.join(ROOT, '.work')
-OUT = os.path.join(ROOT, 'out')
+# Development aid (seeded-change evaluation in parallel): VERIF_REPO names another source tree, VERIF_TAG keeps its build, output and
+# evidence apart.  The registered commands never set them: they build /repo and write /verif/evidence.
+REPO = os.environ.get('VERIF_REPO', '/repo')
+TAG = os.environ.get('VERIF_TAG', '')
+OUT = os.path.join(ROOT, 'out' + TAG)
+EVID = os.path.join(ROOT, 'evidence') if not TAG else os.path.join(OUT, 'evidence')
 SPEC = os.path.join(ROOT, 'spec')
 HARN = os.path.join(ROOT, 'harness')
 TLA_CP = '/opt/veriftools/tla/tla2tools.jar:/opt/veriftools/tla/CommunityModules-deps.jar'
@@ -52,7 +57,7 @@ def link(name, srcs, wraps=(), cfg='asan', extra=(), cxx=False):
     out = os.path.join(b, 'h_' + name)
     cmd = ['clang++' if cxx else 'clang'] + SAN[cfg] + ['-O1', '-g', '-Wall', '-Wno-deprecated-declarations',
            '-Wno-unused-function',
-           '-I' + os.path.join(b, 'include'), '-I/repo/include', '-I' + b, '-I' + HARN]
+           '-I' + os.path.join(b, 'include'), '-I' + REPO + '/include', '-I' + b, '-I' + HARN]
     cmd += [os.path.join(HARN, s) if not s.startswith('/') else s for s in srcs]
     cmd += ['-o', out, os.path.join(b, 'libcoap-3.a'), '-lgnutls', '-lpthread']
     if wraps:
@@ -91,12 +96,12 @@ def sanitizer_reports(text):
         reps.append(('ubsan', m.group(1), m.group(2)))
     for m in re.finditer(r'ERROR: AddressSanitizer: (\S+)(.*)', text):
         loc = ''
-        m2 = re.search(r'#\d+ 0x[0-9a-f]+ in (\S+) (/repo/\S+)', text[m.end():m.end() + 3000])
+        m2 = re.search(r'#\d+ 0x[0-9a-f]+ in (\S+) (' + re.escape(REPO) + r'/\S+)', text[m.end():m.end() + 3000])
         if m2:
             loc = m2.group(1) + ' ' + m2.group(2)
         reps.append(('asan', loc, m.group(1)))
     for m in re.finditer(r'ERROR: LeakSanitizer: detected memory leaks', text):
-        m2 = re.search(r'#\d+ 0x[0-9a-f]+ in (coap_\S+|oscore_\S+|cose_\S+) (/repo/\S+)', text[m.end():m.end() + 3000])
+        m2 = re.search(r'#\d+ 0x[0-9a-f]+ in (coap_\S+|oscore_\S+|cose_\S+) (' + re.escape(REPO) + r'/\S+)', text[m.end():m.end() + 3000])
         reps.append(('lsan', (m2.group(1) + ' ' + m2.group(2)) if m2 else '', 'leak'))
     return reps
 
@@ -224,10 +229,10 @@ def enabled_findings(prop=None):
 
 
 def write_evidence(pid, tier, level, coverage, wall, violations=0, assumptions=()):
-    os.makedirs(os.path.join(ROOT, 'evidence'), exist_ok=True)
+    os.makedirs(EVID, exist_ok=True)
     ev = {'property_id': pid, 'tier': tier, 'seed': seed(), 'level': level, 'coverage': coverage,
           'assumptions': list(assumptions), 'wall_s': round(wall, 2), 'violations': violations}
-    p = os.path.join(ROOT, 'evidence', pid + '.json')
+    p = os.path.join(EVID, pid + '.json')
     with open(p + '.tmp', 'w') as f:
         json.dump(ev, f, indent=1, sort_keys=True)
     os.replace(p + '.tmp', p)
